@@ -177,6 +177,10 @@ func (e *Encoder) writeValue(val reflect.Value, tagType byte) error {
 
 		for i := 0; i < val.Len(); i++ {
 			arrType, arrVal := getTagType(val.Index(i))
+			if arrType != eleType {
+				// a TAG_List declares one element type: elements of another type would be unreadable
+				return fmt.Errorf("nbt: element %d of a TAG_List of %#02x has type %#02x", i, eleType, arrType)
+			}
 			err := e.marshal(arrVal, arrType)
 			if err != nil {
 				return err
